@@ -109,7 +109,9 @@ def perform_table(repo):
                     and c.args and isinstance(c.args[0], ast.Constant) and c.args[0].value == fn.name \
                     and [getattr(x, 'id', None) for x in c.args[1:]] == params:
                 kind = 'perform'
-        out.append({'name': fn.name, 'params': params, 'nreq': len(params) - nd, 'kind': kind})
+        dflts = [None] * (len(params) - nd) + list(fn.args.defaults)
+        mode = [p for p, d in zip(params, dflts) if isinstance(d, ast.Constant) and isinstance(d.value, str)]
+        out.append({'name': fn.name, 'params': params, 'nreq': len(params) - nd, 'kind': kind, 'mode_params': mode})
     return out
 
 
@@ -327,21 +329,30 @@ class Check(common.Check):
             b = {'c': I.items(self.g_list(rng, npre, 3, tuples=False))}
         return {'k': 'op', 'op': name, 'a': a, 'b': b, 'pre': pre}
 
-    def gen_meth(self, rng):
-        tab = [m for m in self.tables()['perform'] if m['kind'] == 'perform' or m['name'] in ('madd', 'min_nyquist')]
-        m = rng.choice(tab)
+    METH_SPECIAL = ('dup', 'sum', 'poll', 'dpoll')
+
+    def gen_meth(self, rng, entry=None):
+        """every public ChannelList method of the source (signature by ast, whatever its body looks
+        like) called with every parameter: all-args calls are the majority, mode-like parameters
+        (default is a string or None) get strings / None / lists of them"""
+        tab = [m for m in self.tables()['perform'] if m['name'] not in self.METH_SPECIAL]
+        m = entry or rng.choice(tab)
         pre = [rng.choice(['ar', 'ar', 'kr']) for _ in range(rng.randint(1, 5))]
         npre = len(pre)
         self_ = [{'u': rng.randrange(npre)} for _ in range(rng.choice([1, 2, 2, 3, 4]))]
-        if rng.random() < 0.06:
+        if entry is None and rng.random() < 0.06:
             nm = rng.choice(['dup', 'sum'])
             return {'k': 'meth', 'name': nm, 'self': self_, 'args': [rng.randint(1, 4)] if nm == 'dup' and rng.random() < 0.7 else [],
                     'pre': pre, 'strs': STR_VOCAB}
-        n = rng.randint(m['nreq'], len(m['params']))
+        n = len(m['params']) if rng.random() < 0.65 else rng.randint(m['nreq'], len(m['params']))
+        modes = [{'s': 'minmax'}, {'s': 'min'}, {'s': 'max'}, None]
         args = []
         for p in m['params'][:n]:
-            if p in ('clip', 'type'):
-                args.append(rng.choice([{'s': 'minmax'}, {'s': 'min'}, {'s': 'max'}, None]))
+            if p in ('clip', 'type') or p in m.get('mode_params', ()):
+                if rng.random() < 0.3:
+                    args.append({rng.choice('lc'): [rng.choice(modes) for _ in range(rng.randint(1, 5))]})
+                else:
+                    args.append(rng.choice(modes[1:] + modes))
             elif p in ('start',):
                 args.append(rng.choice([None, 0.5]))
             else:
@@ -422,6 +433,11 @@ class Check(common.Check):
             rng.shuffle(idx)
             for i in idx[:n * 4 // 10]:
                 cases.append(self.gen_ctor(rng, table[i]))
+        # every ChannelList convenience method, every parameter, several times
+        mtab = [m for m in self.tables()['perform'] if m['name'] not in self.METH_SPECIAL]
+        for _ in range(12 if self.tier == 'thorough' else 3):
+            for m in mtab:
+                cases.append(self.gen_meth(rng, m))
         while len(cases) < n:
             r = rng.random()
             if r < 0.1:
@@ -790,6 +806,8 @@ class Check(common.Check):
         h['constructors_not_direct_skipped'] = t['not_direct']
         h['direct_delegators_exercised'] = len(classes)
         h['perform_methods_in_source'] = sum(1 for m in t['perform'] if m['kind'] == 'perform')
+        h['channellist_methods_driven'] = ' '.join(sorted({c['name'] for c in cases if c['k'] == 'meth'}))
+        h['channellist_methods_not_plain_forwarders'] = ' '.join(m['name'] for m in t['perform'] if m['kind'] != 'perform')
         h['direct_delegator_classes'] = ' '.join(sorted(f'{m}.{c}.{k}' for m, c, k in classes))
         return h
 
